@@ -27,7 +27,10 @@ PROPS = ('C05', 'C06')
 
 
 def _mine(ex):
-    return ENABLED and ex.ctx.prop in PROPS
+    if ENABLED and ex.ctx.prop in PROPS:
+        _patch_discharge()
+        return True
+    return False
 
 
 def _is_node_class(ex, ci) -> bool:
@@ -161,7 +164,7 @@ def _sum_range(ex, st, args, kw, node):
         # the core's sum-zero-tail lemma (two bound variables, multi-pattern over every pair of prefix sums) is not needed
         # by the C05/C06 proofs and makes the solver diverge once several sums are present: dropping a hypothesis is sound
         st.pc[n_pc:] = [h for h in st.pc[n_pc:] if not (z3.is_quantifier(h) and h.is_forall() and h.num_vars() == 2)]
-    if st.bound or st.use_old:
+    if st.bound:
         return res
     lam, lo, hi = args
     key = _sum_key(st, lam, lo)
@@ -182,21 +185,22 @@ def _sum_range(ex, st, args, kw, node):
     if new_hi:
         his = his + (hi_t,)
     # each sum is remembered with ITS prefix-sum function and the heap its terms were read in
-    me = (key, lam, lo_t, his, S, dict(st.heap))
+    me = (key, lam, lo_t, his, S, dict(st.heap0 if st.use_old else st.heap))
     st.ghost['c05c-sums'] = tuple(others) + (me,)
     if not new_hi:
         return res
     done = st.ghost.get('c05c-cong', frozenset())
 
     def term_at(ent, q):
-        saved = st.heap
+        saved, saved_old = st.heap, st.use_old
         st.heap = dict(ent[5])
+        st.use_old = 0
         try:
             return as_real(ex.call(st, ent[1], [v_int(q)], {}, node))
         finally:
             for f_, a_ in st.heap.items():
                 saved.setdefault(f_, a_)
-            st.heap = saved
+            st.heap, st.use_old = saved, saved_old
 
     def total(ent, b):
         return z3.If(b > ent[2], ent[4](b), z3.RealVal(0))
@@ -255,3 +259,120 @@ def _namedtuple_replace_attr(ex, st, obj, name, node):
         return None
     from pyvc.vals import v_py
     return v_py(('bound', obj, name))
+
+
+# ---- discharge strategy: relevance-filtered attempts first -----------------------------------------------
+# ENGINE  The obligations of the builder contracts carry 150-300 hypotheses (type facts and dictionary invariants under
+#         binders); z3's E-matching is unstable on them (the same goal is proved in 0.03 s from the 40 most recent
+#         hypotheses and times out from all of them).  For C05/C06 obligations the most recent k hypotheses are tried
+#         first (k = 40, 60, 90, 130; short timeouts).  A proof from a SUBSET of the hypotheses is a proof; when no
+#         subset attempt succeeds the core portfolio runs unchanged on the full set.
+_patched = [False]
+
+
+def _patch_discharge():
+    if _patched[0]:
+        return
+    _patched[0] = True
+    import time as _time
+
+    from pyvc import verify as _verify
+    _orig_discharge = _verify.discharge
+
+    def _discharge(ob, timeout_ms, witness_terms):
+        if ENABLED and ob.name.split(':', 1)[0] in PROPS and len(ob.hyps) > 50:
+            t0 = _time.time()
+            for k in (len(ob.hyps), 40, 60, 90, 130):
+                if k > len(ob.hyps) or (k == len(ob.hyps) and k in (40, 60, 90, 130)):
+                    break
+                s = z3.Solver()
+                s.set('timeout', min(1000 if k == len(ob.hyps) else 1500, timeout_ms))
+                for a in _verify.background_axioms():
+                    s.add(a)
+                s.add(*ob.hyps[-k:])
+                s.add(z3.Not(ob.goal))
+                try:
+                    r = str(s.check())
+                except z3.Z3Exception:
+                    break
+                if r == 'sat' and k == len(ob.hyps):
+                    break          # a counter-model of the full set: let the core portfolio decode it
+                if r == 'unsat':
+                    return _verify.OblResult(ob.name, ob.kind, 'discharged',
+                                             f'z3-{z3.get_version_string()}' + ('' if k == len(ob.hyps) else f'(last {k} of {len(ob.hyps)} hypotheses)'),
+                                             round(_time.time() - t0, 4), ob.line, ob.func, ob.note, None, 0)
+        return _orig_discharge(ob, timeout_ms, witness_terms)
+
+    _verify.discharge = _discharge
+
+
+# ---- iteration over an object whose __iter__ is `return iter(self.<field>)` ------------------------------
+@lib.hook('ref_iter')
+def _iter_delegating(ex, st, v, node):
+    if not _mine(ex) or v.kind != 'ref' or not v.ty.cls:
+        return None
+    fi = ex.repo.resolve_method(v.ty.cls, '__iter__')
+    if fi is None:
+        return None
+    body = [s for s in fi.node.body if not (isinstance(s, _ast.Expr) and isinstance(s.value, _ast.Constant))]
+    if len(body) != 1 or not isinstance(body[0], _ast.Return):
+        return None
+    r = body[0].value
+    if not (isinstance(r, _ast.Call) and isinstance(r.func, _ast.Name) and r.func.id == 'iter' and len(r.args) == 1
+            and isinstance(r.args[0], _ast.Attribute) and isinstance(r.args[0].value, _ast.Name) and r.args[0].value.id == 'self'):
+        return None
+    ex.ctx.note(f'ENGINE c05c: iteration over a {v.ty.cls} = iteration over its field {r.args[0].attr} (body of __iter__)')
+    inner = ex.get_attr(st, v, r.args[0].attr, node)
+    return lib.iter_view(ex, st, inner, node)
+
+
+# ---- set iteration: the enumeration is a bijection between [0, len) and the members (same LIBSPEC as libext/c19_sets) --
+_orig_iter_view = lib.iter_view
+
+
+def _iter_view(ex, st, v, node=None):
+    if v.kind == 'opt' and _mine(ex):
+        v = ex.unopt(st, v, node, 'iteration')        # `for x in opt`: obligation safe:none, then the inner value
+    view = _orig_iter_view(ex, st, v, node)
+    if v.kind == 'set' and _mine(ex):
+        from pyvc.libext.c19_sets import set_enum_axioms
+        set_enum_axioms(ex, st, v)
+    return view
+
+
+lib.iter_view = _iter_view
+
+
+# ---- proving context flag (specs/c05c_specs.c05c_cut acts only while a goal is being built) --------------------
+_orig_spec_goal = _symexec.Executor.spec_goal
+
+
+def _spec_goal(self, st, kind, label, src, env, line=0, note='', witness=None):
+    prev = getattr(self, 'c05c_proving', 0)
+    self.c05c_proving = prev + 1
+    try:
+        return _orig_spec_goal(self, st, kind, label, src, env, line=line, note=note, witness=witness)
+    finally:
+        self.c05c_proving = prev
+
+
+_symexec.Executor.spec_goal = _spec_goal
+
+_orig_spec_eval = _symexec.Executor.spec_eval
+
+
+def _spec_eval(self, st, src, env):
+    con = self.frame.contract if self.frames else None
+    is_hint = (isinstance(src, str) and con is not None and self.frame.depth == 0 and src in (con.hints or [])
+               and self.ctx.prop in PROPS and ENABLED)
+    if not is_hint:
+        return _orig_spec_eval(self, st, src, env)
+    prev = getattr(self, 'c05c_hint', 0)
+    self.c05c_hint = prev + 1          # a hint is evaluated at a return point: cuts inside it are proof steps
+    try:
+        return _orig_spec_eval(self, st, src, env)
+    finally:
+        self.c05c_hint = prev
+
+
+_symexec.Executor.spec_eval = _spec_eval
